@@ -347,5 +347,7 @@ func TestVerifC12Queue(t *testing.T) {
 	qT = t
 	r := c12Rec
 	ev.Run(t, r, ev.Spec[c12Q]{Name: "queue-scenarios", N: r.Scale(1, 4, 2), Gen: c12GenQ, Run: c12RunQ, Journal: true,
-		Info: func(c c12Q) ev.Info { return ev.Info{Nontrivial: true, Classes: []string{fmt.Sprintf("msgs=%d", len(c.Scenario.Msgs))}} }})
+		Info: func(c c12Q) ev.Info {
+			return ev.Info{Nontrivial: true, Classes: []string{fmt.Sprintf("msgs=%d", len(c.Scenario.Msgs))}}
+		}})
 }
